@@ -81,8 +81,7 @@ theorem shiftSelectorLoop_shape (s : Bytes) (k n i : Nat) (esc : Bool) (hk : s.l
     shiftFinish s (Gen.shiftSelectorLoop s n esc (i : Int)) = (shiftIdx s i esc).toOption :=
   shiftLoop_shape (Gen.shiftSelectorLoop s) s (fun _ _ => by rw [Gen.shiftSelectorLoop])
     (fun n esc i => by
-      rw [Gen.shiftSelectorLoop]
-      opt_split) k n i esc hk hn
+      rw [Gen.shiftSelectorLoop]) k n i esc hk hn
 
 /-- **`shiftSelector(s)` as feature.go defines it now never panics and returns the model's
 `shiftSelectorB s`** (the text before the first unescaped `/`, the text behind it), for every string and
@@ -146,6 +145,7 @@ theorem toQualifier_eq {ρ : Type} (q : Bytes → Bytes → ρ) (s : Bytes) :
       have := Gen.goFrom_nat s (i + 1) (by omega)
       simpa only [Int.natCast_add, Int.cast_ofNat_Int] using this
     rw [if_neg (by omega), Gen.goTo_nat s i (by omega), h2]
+    rfl
 
 -- non-vacuity: an escaped slash is skipped, the first free one splits (`a\/b/c=d`); the clause is split
 -- at its first `=`
